@@ -95,13 +95,15 @@ def prop_eval(case, ctx):
                     q = float(res.action_value[view.S[s]][view.A[a]])
                     ctx.check(q == float("-inf"), "C02.unavailable_action_minus_inf", lambda: f"Q[{s},{a}]={q}")
     # occupancy
+    # (normwise, like the values: a linear solve bounds the error relative to the largest entry of the solution)
+    oscale = 1 + max([abs(float(ev["occupancy"][s])) for s in states if math.isfinite(float(ev["occupancy"][s]))] + [0.0])
     for s in states:
         o = float(res.state_occupancy[view.S[s]])
         ro = float(ev["occupancy"][s])
         if math.isinf(ro):
             ctx.check(o == ro, "C02.occupancy_inf_at_recurrent", lambda: f"state {s}: msdm {o} reference inf")
         else:
-            ctx.check(math.isfinite(o) and abs(o - ro) <= max(1e-8, 1e-13 / (1 - gamma) if gamma < 1 else 0) * (1 + abs(ro)), "C02.occupancy",
+            ctx.check(math.isfinite(o) and abs(o - ro) <= max(1e-8, 1e-13 / (1 - gamma) if gamma < 1 else 0) * oscale, "C02.occupancy",
                       lambda: f"state {s}: msdm {o} reference {ro}")
     iv = float(res.initial_value)
     riv = ev["initial_value"]
